@@ -117,6 +117,22 @@ void *aligned_alloc(size_t al, size_t n)
 	return p;
 }
 
+// Worker threads: every pthread_create() of the process is counted (xz itself creates none; liblzma's threaded coders create
+// one per worker, lazily).
+#include <pthread.h>
+static _Atomic uint64_t nthreads;
+static int (*real_pthread_create)(pthread_t *, const pthread_attr_t *, void *(*)(void *), void *);
+
+int pthread_create(pthread_t *t, const pthread_attr_t *a, void *(*fn)(void *), void *arg)
+{
+	if (real_pthread_create == NULL)
+		real_pthread_create = dlsym(RTLD_NEXT, "pthread_create");
+	int r = real_pthread_create(t, a, fn, arg);
+	if (r == 0)
+		atomic_fetch_add(&nthreads, 1);
+	return r;
+}
+
 static int report_fd = -1;
 
 // The file is opened in the constructor: xz's sandbox (Landlock) forbids creating files later on.
@@ -124,8 +140,9 @@ static void report(void)
 {
 	if (report_fd < 0) return;
 	char buf[160];
-	int n = snprintf(buf, sizeof(buf), "peak=%llu live=%llu allocs=%llu\n", (unsigned long long)atomic_load(&peak),
-			(unsigned long long)atomic_load(&live), (unsigned long long)atomic_load(&nalloc));
+	int n = snprintf(buf, sizeof(buf), "peak=%llu live=%llu allocs=%llu threads=%llu\n", (unsigned long long)atomic_load(&peak),
+			(unsigned long long)atomic_load(&live), (unsigned long long)atomic_load(&nalloc),
+			(unsigned long long)atomic_load(&nthreads));
 	if (pwrite(report_fd, buf, (size_t)n, 0) < 0) { }
 }
 
